@@ -27,14 +27,20 @@ func init() {
 		Rule: "cases = (codec, direction, source/destination kind, content, reader/writer script, closing option). " +
 			"(a) sweep: for every codec x direction x documented kind, a fixed content with a stream fault at EVERY byte offset 0..len (error alone / error together with the last bytes; writer faults one-shot / sticky), closing option on and off; " +
 			"(b) seeded: kinds (documented ones, and nil / typed-nil / non-pointer / foreign / pre-populated destinations) x contents (empty, ASCII, whitespace-edged, all 256 byte values, invalid UTF-8, buffer-boundary sizes, 64 KiB..1 MiB, JSON number literals beyond float64) x scripts (whole, 1-byte, random chunks, runs of <= 50 zero-length reads, data together with EOF, fault at a random offset). " +
+			"(c) refusal paths, in the sweep and seeded: no reader / no writer at all for the byte-stream and text codecs, sources no producer documents (nil, typed-nil pointers, scalars, maps, channels, functions, arrays, structs and slices JSON refuses) into every writer kind, on fresh and on used producer instances; " +
+			"(d) 2..8 goroutines calling ONE codec instance at the same time, each with its own content (up to 64 KiB), streams and destination, the scripted streams yielding the processor before every read and write. " +
 			"Every case drives the real Consume/Produce on scripted streams that count reads, writes and closes. " +
 			"non-trivial = every case whose kind belongs to the codec's table; distinct by (codec, direction, kind, pre-populated?, stream behaviour class, payload behaviour class, closing option)",
 		Assumptions: []string{
-			"nil READERS/WRITERS are not generated (the statement's nil clause is about destinations)",
-			"producers given unsupported sources are not judged (the totality clause is about destinations)",
+			"no reader / no writer at all (a nil io.Reader / io.Writer) is generated for the byte-stream and text codecs only: the call must be refused (an error, never a panic), and a closable source payload is closed all the same; JSON/XML/YAML hand the stream to the standard decoder / encoder and are not driven without one (the statement's nil clause is about destinations)",
+			"producers given a source they do not document: no panic, both directions of the closing clause, an error for a nil source, and no success that did not happen (nil returned with nothing written, or with the reflect package's '<T Value>' placeholder written); what an undocumented kind is otherwise written as is not judged",
+			"TRIAGE-PENDING (gen.go, triagePending): typed-nil pointer sources of the byte-stream and text producers (they panic in reflect) and a nil writer together with a closable payload (the payload stays open) are judged on replay but kept out of the generator until the lead has triaged them",
+			"DiscardConsumer / DiscardProducer: an error, a closed stream, bytes written or an altered destination are violations; READING the stream or the payload is not (the statement has no clause about it: draining is what connection reuse wants)",
+			"overlapping calls on ONE codec instance (what Runtime.Consumers / Producers and the API's maps hold) are each judged as a call that was alone: the statement quantifies over all inputs without an exception for calls that overlap; faults are not scripted there, and the build is not a -race build (interference is seen in the bytes, the values, the close counters or as a panic)",
+			"the content above 32 MiB is not run (class content/above-32MiB/not-run-for-lack-of-memory) on a machine with less than 1 GiB (quick) / 4 GiB (thorough) of available memory: a worker killed for lack of memory would be reported as a crash of the code under test",
 			"typed-nil pointers to user types that implement the codec's interfaces (io.ReaderFrom, encoding.TextUnmarshaler ...) are not generated: the panic would be raised by the user's method",
 			"both directions of the closing clause are judged on every call, refusals before the stream was used included (the code used to leave the stream open there: repaired, commit 3e4ffa7)",
-			"a destination kind the codec does not document must not panic, must not report success after silently dropping a non-empty input, and must be refused (an error) for an empty input too: the statement has no exception for empty streams (the text consumer used to accept anything then: repaired, commit 822f195)",
+			"a destination kind the codec does not document must not panic, must not report success after silently dropping a non-empty input, and must be refused (an error) for an empty input too: the statement has no exception for empty streams (the text consumer used to accept anything then: repaired, commit 822f195); the same holds for the nil / typed-nil / non-pointer destinations of the JSON, XML and YAML consumers on an empty or blank document",
 			"a failure of the value's own MarshalBinary / MarshalText / UnmarshalBinary / UnmarshalText must come back as an error: nil would report a success that did not happen (which error is not judged)",
 			"producers are also driven into a writer without Close, a *bytes.Buffer and a *bufio.Writer over a failing sink: no panic, same bytes (read after the caller's own Flush), the sink's error returned when it was met during Produce",
 			"one content above 32 MiB is consumed in every run: it is generated by the reader from a repeated pattern, and what was stored is compared with it by length and CRC-32",
@@ -80,12 +86,14 @@ type Case struct {
 	Warm int `json:"warm,omitempty"`
 	// RK: the reader handed to the byte-stream / text Consume. "" = the scripted io.ReadCloser; "plain" =
 	// the scripted reader without Close; "bytes.Buffer" / "bytes.Reader" / "strings.Reader" = the concrete
-	// standard types (the script R does not apply to them; there is nothing the closing option could close).
+	// standard types (the script R does not apply to them; there is nothing the closing option could close);
+	// "nil" = no reader at all (a nil io.Reader: the call can only be refused).
 	RK string `json:"rk,omitempty"`
 	// WK: the writer handed to Produce (produce and roundtrip cases). "" = the scripted io.WriteCloser; "plain" =
 	// the scripted writer without Close; "bytes.Buffer" = a *bytes.Buffer (the script W does not apply); "bufio" =
 	// a *bufio.Writer (16 bytes) over the scripted writer without Close: it is flushed by the harness after Produce
-	// returned, and a fault of the sink that only that flush meets is not the producer's.
+	// returned, and a fault of the sink that only that flush meets is not the producer's. "nil" (byte-stream and
+	// text producers only) = no writer at all (a nil io.Writer: the call can only be refused).
 	WK string `json:"wk,omitempty"`
 	// WarmFail: with Warm > 0, one more earlier call is made on the same instance(s) right before the judged one,
 	// and that call FAILS (read fault at mid-content for consumers, write fault for producers).
@@ -93,6 +101,10 @@ type Case struct {
 	// UFail: the destination's own UnmarshalBinary / UnmarshalText (kinds binunm, textunm) or the source's own
 	// MarshalBinary / MarshalText (kinds binm, textm) returns an error.
 	UFail bool `json:"ufail,omitempty"`
+	// Par > 1: that many goroutines call ONE codec instance at the same time, each with a content of its own
+	// (derived from Content), its own streams and its own destination; the scripted streams give the processor
+	// away before every read and write. Each call is judged as if it had been alone. Faults are not scripted.
+	Par int `json:"par,omitempty"`
 }
 
 // bigContent: from this size on a consume case is run by runBigConsume, which never holds the content itself
@@ -221,6 +233,9 @@ func (c *Case) fp(dir string) string {
 	if n > bigContent {
 		extra += "+above-32MiB"
 	}
+	if c.Par > 1 {
+		extra += "+concurrent"
+	}
 	return strings.Join([]string{c.Codec, dir, c.Kind, pre, c.R.class(n), c.W.class(n), c.O.class(n), fmt.Sprint(c.Close), fmt.Sprint(c.Warm), extra}, "|")
 }
 
@@ -279,6 +294,8 @@ func consumeReader(c *Case, data []byte) (rd io.Reader, sr *sReader, src []byte,
 		return bytes.NewReader(src), &sReader{}, src, true
 	case "strings.Reader":
 		return strings.NewReader(string(data)), &sReader{}, nil, true
+	case "nil":
+		return nil, &sReader{}, nil, true
 	}
 	return nil, nil, nil, false
 }
@@ -297,6 +314,10 @@ func produceWriter(c *Case, w *sWriter) (wr io.Writer, out func() []byte, ok boo
 	case "bufio":
 		bw := bufio.NewWriterSize(wDest{w}, 16)
 		return bw, func() []byte { _ = bw.Flush(); return w.buf }, true
+	case "nil":
+		if c.Codec == "bytestream" || c.Codec == "text" {
+			return nil, func() []byte { return nil }, true
+		}
 	}
 	return nil, nil, false
 }
@@ -304,6 +325,8 @@ func produceWriter(c *Case, w *sWriter) (wr io.Writer, out func() []byte, ok boo
 func runCase(m *mon.M, c *Case) {
 	m.Eval(1)
 	switch {
+	case c.Par > 1:
+		runConcurrent(m, c)
 	case c.Codec == "discard":
 		runDiscard(m, c)
 	case (c.Codec == "bytestream" || c.Codec == "text") && c.Dir == "consume":
@@ -392,13 +415,24 @@ func runByteConsume(m *mon.M, c *Case) {
 	m.Class(c.Codec + "/consume/" + kindClass(c.Kind))
 	m.Class("content/" + contentClass(data))
 	if pv != nil {
-		m.Violate("consume-panic/"+c.Codec+"/"+kindClass(c.Kind), fmt.Sprintf("%s Consume into %s (%T) panicked: %v\n%s", c.Codec, c.Kind, d.v, pv, st), c)
+		feat := kindClass(c.Kind)
+		if c.RK == "nil" {
+			feat = "nil-reader"
+		}
+		m.Violate("consume-panic/"+c.Codec+"/"+feat, fmt.Sprintf("%s Consume into %s (%T) panicked: %v\n%s", c.Codec, c.Kind, d.v, pv, st), c)
 		return
 	}
 	if c.RK == "" {
 		closeRules(m, c, "reader", r.closes, r.reads)
 	} else {
 		m.Class(c.Codec + "/consume/reader=" + c.RK)
+	}
+	if c.RK == "nil" {
+		// nothing can be read from no reader at all: the call can only be refused ("nil ... yield an error, never a panic")
+		if err == nil {
+			m.Violate("nil-stream-accepted/"+c.Codec+"/consume", fmt.Sprintf("%s Consume from a nil reader into %s (%T) returned nil (destination now %s)", c.Codec, c.Kind, d.v, short(get(d))), c)
+		}
+		return
 	}
 	if usedAfterClose(m, c, "reader", r.readsAfterClose, err) {
 		return
@@ -498,6 +532,17 @@ func runBigConsume(m *mon.M, c *Case) {
 		m.Violate("bad-replay-case", "empty pattern", c)
 		return
 	}
+	// the case peaks at several times its 32 MiB (buffer doubling, the stored copy): a worker killed for lack of
+	// memory would be reported as a crash of the code under test, so the case is not run on a machine that
+	// cannot give that (the thorough tier runs up to nine of them at the same time)
+	need := int64(1) << 30
+	if !m.Quick() {
+		need = 4 << 30
+	}
+	if avail, ok := memAvailable(); ok && avail < need {
+		m.Class("content/above-32MiB/not-run-for-lack-of-memory")
+		return
+	}
 	d, ok := mkDest(c.Codec, c.Kind, []byte(c.Pre), c.O, c.DBuf)
 	if !ok {
 		m.Violate("bad-replay-case", "unknown destination kind "+c.Kind, c)
@@ -576,6 +621,8 @@ func runByteProduce(m *mon.M, c *Case) {
 		return
 	}
 	prod := producerOf(c)
+	documented, _ := srcKindsOf(c.Codec)
+	supported := isIn(documented, c.Kind)
 	// earlier calls on the same instance: what they wrote into their own writers must not be touched by later calls
 	type earlierW struct {
 		w      *sWriter
@@ -622,21 +669,42 @@ func runByteProduce(m *mon.M, c *Case) {
 	m.Class(c.Codec + "/produce/" + c.Kind)
 	m.Class("content/" + contentClass(data))
 	if pv != nil {
-		m.Violate("produce-panic/"+c.Codec+"/documented-source", fmt.Sprintf("%s Produce from %s (%T) panicked: %v\n%s", c.Codec, c.Kind, s.v, pv, st), c)
+		feat := srcClass(c.Codec, c.Kind)
+		if c.WK == "nil" {
+			if supported {
+				feat = "nil-writer"
+			} else {
+				feat += "+nil-writer"
+			}
+		}
+		m.Violate("produce-panic/"+c.Codec+"/"+feat, fmt.Sprintf("%s Produce from %s (%T) panicked: %v\n%s", c.Codec, c.Kind, s.v, pv, st), c)
 		return
 	}
+	// the closing clause holds on every path: refusals of a nil or unsupported source included
 	if c.WK == "" {
 		closeRules(m, c, "writer", w.closes, w.writes)
 	} else {
 		m.Class(c.Codec + "/produce/writer=" + c.WK)
 	}
 	if s.closer != nil && s.closer.closes == 0 {
-		m.Violate("source-payload-not-closed/"+c.Codec, fmt.Sprintf("%s Produce from %s: the io.ReadCloser payload was not closed (err=%v)", c.Codec, c.Kind, err), c)
+		sig := "source-payload-not-closed/" + c.Codec
+		if c.WK == "nil" {
+			sig += "/nil-writer" // "a closable source payload is ALWAYS closed": also when the call is refused for its writer
+		}
+		m.Violate(sig, fmt.Sprintf("%s Produce from %s (writer kind %q): the io.ReadCloser payload was not closed (err=%v)", c.Codec, c.Kind, c.WK, err), c)
 	}
 	if usedAfterClose(m, c, "writer", w.writesAfterClose, err) {
 		return
 	}
 	if s.closer != nil && usedAfterClose(m, c, "source-payload", s.closer.readsAfterClose, err) {
+		return
+	}
+	if c.WK == "nil" {
+		// nothing can be written to no writer at all: the call can only be refused
+		m.Class("nil-writer-call")
+		if err == nil {
+			m.Violate("nil-stream-accepted/"+c.Codec+"/produce", fmt.Sprintf("%s Produce from %s (%T) into a nil writer returned nil", c.Codec, c.Kind, s.v), c)
+		}
 		return
 	}
 	srcFault := c.O.Fault && ((s.rd != nil && s.rd.errDelivered) || (s.wt != nil && s.wt.calls > 0))
@@ -656,6 +724,32 @@ func runByteProduce(m *mon.M, c *Case) {
 		m.Class("user-marshaler-fails")
 		if err == nil {
 			m.Violate("user-marshaler-error-swallowed/"+c.Codec, fmt.Sprintf("%s Produce from %s: the source's own marshaler returned an error and Produce returned nil (written %s)", c.Codec, c.Kind, short(out())), c)
+		}
+		return
+	}
+	if !supported {
+		// a source the producer does not document (or cannot render): no panic (judged above), the closing clause
+		// (judged above), and no success that did not happen
+		cls := srcClass(c.Codec, c.Kind)
+		if err != nil {
+			m.Class(cls + "-rejected")
+			return
+		}
+		written := out()
+		if w.errDelivered {
+			// the sink failed under the harness's own flush of the buffering writer, after Produce had returned
+			m.Class("fault-met-by-the-callers-flush-only")
+			return
+		}
+		switch {
+		case c.Kind == "nil":
+			m.Violate("nil-source-accepted/"+c.Codec, fmt.Sprintf("%s Produce from nil returned nil (written %s)", c.Codec, short(written)), c)
+		case len(written) == 0:
+			m.Violate("silent-success/"+c.Codec+"/produce/"+cls, fmt.Sprintf("%s Produce from %s (%T): nothing was written and nil was returned", c.Codec, c.Kind, s.v), c)
+		case reflectPlaceholder(written):
+			m.Violate("placeholder-written/"+c.Codec+"/"+cls, fmt.Sprintf("%s Produce from %s (%T): %s was written (the reflect package's placeholder for a value that is not a string) and nil was returned", c.Codec, c.Kind, s.v, short(written)), c)
+		default:
+			m.Class("undocumented-source-written")
 		}
 		return
 	}
@@ -698,6 +792,12 @@ func runByteProduce(m *mon.M, c *Case) {
 		m.Violate("written-mismatch/"+c.Codec+"/json-form", fmt.Sprintf("%s Produce from %s: written %s does not decode to the source value (%v)", c.Codec, c.Kind, short(written), uerr), c)
 	}
 	m.Class("written-json-ok")
+}
+
+// reflectPlaceholder: "<int Value>", "<map[string]string Value>" ... is what reflect.Value.String answers for a
+// value that is not a string; it is never a rendition of the value.
+func reflectPlaceholder(b []byte) bool {
+	return len(b) > 8 && b[0] == '<' && bytes.HasSuffix(b, []byte(" Value>"))
 }
 
 // ---- structured codecs: produce, then consume what was produced ----
@@ -939,8 +1039,13 @@ func runStructConsume(m *mon.M, c *Case) {
 	if usedAfterClose(m, c, "reader", r.readsAfterClose, err) {
 		return
 	}
-	if mustErr && err == nil && len(bytes.TrimSpace(data)) > 0 {
-		m.Violate("silent-success/"+c.Codec+"/"+kindClass(c.Kind), fmt.Sprintf("%s Consume of %s into %s (%T) returned nil", c.Codec, short(data), c.Kind, v), c)
+	if mustErr && err == nil {
+		// "unsupported, nil ... destinations yield an error": the statement has no exception for an empty (or blank) stream
+		sig := "silent-success/"
+		if len(bytes.TrimSpace(data)) == 0 {
+			sig = "empty-input-accepted/"
+		}
+		m.Violate(sig+c.Codec+"/"+kindClass(c.Kind), fmt.Sprintf("%s Consume of %s into %s (%T) returned nil", c.Codec, short(data), c.Kind, v), c)
 		return
 	}
 	if err != nil {
@@ -969,7 +1074,11 @@ func runDiscard(m *mon.M, c *Case) {
 			m.Violate("consume-panic/discard", fmt.Sprintf("DiscardConsumer panicked: %v\n%s", pv, st), c)
 			return
 		}
-		if err != nil || r.reads > 0 || r.closes > 0 || (d.get != nil && strings.HasPrefix(c.Kind, "*") && !bytes.Equal(d.get(), []byte(c.Pre))) {
+		// the statement has no clause about reading: a discarding consumer that drains its stream is correct code
+		if r.reads > 0 {
+			m.Class("discard/consume/stream-read")
+		}
+		if err != nil || r.closes > 0 || (d.get != nil && strings.HasPrefix(c.Kind, "*") && !bytes.Equal(d.get(), []byte(c.Pre))) {
 			m.Violate("discard-touched/consume", fmt.Sprintf("DiscardConsumer: err=%v reads=%d closes=%d destination now %s (was %s)", err, r.reads, r.closes, short(get(d)), short([]byte(c.Pre))), c)
 		}
 		return
@@ -985,8 +1094,12 @@ func runDiscard(m *mon.M, c *Case) {
 		m.Violate("produce-panic/discard", fmt.Sprintf("DiscardProducer panicked: %v\n%s", pv, st), c)
 		return
 	}
+	// reading (or closing) the source payload is not forbidden by the statement: classed, not judged
 	touched := (s.rd != nil && (s.rd.reads > 0 || s.rd.closes > 0)) || (s.wt != nil && s.wt.calls > 0)
-	if err != nil || w.writes > 0 || w.closes > 0 || touched {
+	if touched {
+		m.Class("discard/produce/source-touched")
+	}
+	if err != nil || w.writes > 0 || w.closes > 0 {
 		m.Violate("discard-touched/produce", fmt.Sprintf("DiscardProducer: err=%v writes=%d closes=%d source touched=%v", err, w.writes, w.closes, touched), c)
 	}
 }
